@@ -467,6 +467,23 @@ class SymNP(types.ModuleType):
             out[i] = start + i * delta
         return out
 
+    def sign(self, a):
+        if not (active() and is_sym(a)):
+            return _np.sign(a)
+
+        def sg(e):
+            if isinstance(e, SComplex) and not e.im.p.is_zero():
+                if bool(e.re == 0) and bool(e.im == 0):
+                    return SComplex(0, 0)
+                return e / abs(e)
+            x = _r(e)
+            if x > 0:
+                return SReal(1)
+            if x < 0:
+                return SReal(-1)
+            return SReal(0)
+        return elementwise(sg, a)
+
     def isnan(self, a):
         if active() and is_sym(a):
             return elementwise(lambda e: False, a)
